@@ -175,8 +175,12 @@ class RefDist:
         u = np.arctanh(np.clip(a, -1 + 1e-16, 1 - 1e-16))
         z = (u - self.logits) / sig
         lp = np.sum(-0.5 * z * z - self.log_std - 0.5 * LOG2PI, axis=-1) - np.sum(np.log(one_m), axis=-1)
-        # float32 action: da ~ 1.2e-7 -> du = da/(1-a^2); implementation guards the correction with +1e-6
-        cond = np.sum((np.abs(z) / sig + 2 * np.abs(a)) * 1.2e-7 / one_m + 1e-6 / one_m, axis=-1)
+        # float32 action: the value in (-1, 1) is only known up to da -> du = da/(1-a^2); implementation guards the correction
+        # with +1e-6.  da: one float32 rounding of tanh(x) plus one of the action scaled to the bounds (ulp of the largest bound,
+        # mapped back by the half-width) - e.g. bounds (-0.5, 2): 2.4e-7 / 1.25 instead of the 1.2e-7 of a unit interval
+        lo, hi = self.space.low.astype(np.float64).reshape(-1), self.space.high.astype(np.float64).reshape(-1)
+        da = 1.2e-7 * (1.0 + np.maximum(1.0, np.maximum(np.abs(lo), np.abs(hi))) / np.maximum((hi - lo) / 2.0, 1e-12))
+        cond = np.sum((np.abs(z) / sig + 2 * np.abs(a)) * da / one_m + 1e-6 / one_m, axis=-1)
         return lp, cond
 
     def scale_jacobian(self):
